@@ -16,7 +16,7 @@ import (
 
 func TestMain(m *testing.M) { kit.Main(m) }
 
-const rule = "provider populations with drawn qualifier in {no method, \"\", g1, g2, g3}, Primary / named / unnamed attributes x consumers with 1-4 fields (single or slice, qualifier set drawn from {\"\", g1, g2, g3, gX} or none, required or optional, optional-without-candidate fields placed before others); oracle = model checked per field (qualifier membership, unique Primary, else unique unnamed, ties accepted within the top rank); non-trivial = a holder with >=2 fields where a narrowing field follows an optional field without candidates, or a single point with >=3 qualified survivors; distinct by scenario shape"
+const rule = "provider populations with drawn qualifier in {no method, \"\", g1, g2, g3}, Primary / named / unnamed attributes x consumers with 1-4 fields (single or slice, qualifier set drawn from {\"\", g1, g2, g3, gX} or none, required or optional, optional-without-candidate fields placed before others); oracle = model checked per field (qualifier membership, unique Primary, else unique unnamed, ties accepted within the top rank); non-trivial = a holder with >=2 fields where a narrowing field follows an optional field without candidates, or a single point with >=3 qualified survivors; distinct by scenario shape; since rounds 7/8 also two provider types that print the same (one Primary), lazy nodes populated after another container started, and a user post-processor requesting the EMPTY qualifier set through Property.SetArg"
 
 var kinds = []int{0, 1, 2, 2, 3, 3, 4, 6, 7, 8, 10, 13, 14, 20, 20, 21, 24, 24, 25, 25, 26, 26} // 13/14 zero-size, 20 zero-size with qualifier g1, 21 zero-size with g1 and Primary
 var names = []string{"n1", "n2", "n3", "n4", "g1", "g2", "gX"}                                  // some custom names coincide with qualifier values
